@@ -464,42 +464,3 @@ func symConv(i *interpreter, t_dst, t_src types.Type, x value) (value, bool) {
 	return nil, false
 }
 
-// uptr models an unsafe.Pointer: the pointer it was made from and the
-// pointee type it had.
-type uptr struct {
-	p    *value
-	t    types.Type
-	data *dataPtr // for string/slice data pointers
-}
-
-// dataPtr is the data pointer of a string or byte slice: a backing array and
-// an offset into it.
-type dataPtr struct {
-	arr []value // backing store from offset on (capacity preserved)
-	str value   // for strings: the string value whose data this is
-}
-
-func unsafeToPtr(i *interpreter, t_dst types.Type, x value) value {
-	u, ok := x.(uptr)
-	if !ok {
-		if x == nil {
-			return zero(t_dst)
-		}
-		i.abort("unsupported unsafe.Pointer conversion from %T", x)
-	}
-	if u.p == nil && u.data == nil {
-		return zero(t_dst)
-	}
-	dst := mustDeref(t_dst)
-	if u.p != nil && types.Identical(dst, u.t) {
-		return u.p
-	}
-	return unsafeReinterpret(i, dst, u)
-}
-
-// unsafeReinterpret handles the pointer-cast shapes used by the tidwall
-// libraries (see unsafe.go).
-func unsafeReinterpret(i *interpreter, dst types.Type, u uptr) value {
-	i.abort("unsupported unsafe.Pointer reinterpretation: %v -> *%v", u.t, dst)
-	return nil
-}
